@@ -1367,7 +1367,35 @@ impl<'a> Body<'a> {
         if !self.opt("index_loops") {
             return None;
         }
-        let src: Expr = match &*fl.expr {
+        // R4b: `X.iter().take(N)` / `X.iter().skip(A)` / `X.iter().skip(A).take(N)` / `X.iter().take(N).skip(A)`: the same index loop
+        // over the corresponding index range
+        let mut take: Option<Expr> = None;
+        let mut skip: Option<Expr> = None;
+        let mut skip_first = false;
+        let mut cur: &Expr = &fl.expr;
+        let mut adapters = 0;
+        while let Expr::MethodCall(m) = cur {
+            if (m.method == "take" || m.method == "skip") && m.args.len() == 1 && adapters < 2 {
+                // walking outwards-in: the adapter met first is the outer one, i.e. the one applied last
+                if m.method == "take" && take.is_none() {
+                    take = Some(m.args[0].clone());
+                    skip_first = skip.is_none();
+                } else if m.method == "skip" && skip.is_none() {
+                    skip = Some(m.args[0].clone());
+                    skip_first = take.is_some();
+                } else {
+                    return None;
+                }
+                adapters += 1;
+                cur = &m.receiver;
+            } else {
+                break;
+            }
+        }
+        if adapters > 0 && !matches!(cur, Expr::MethodCall(it) if it.method == "iter" && it.args.is_empty()) {
+            return None;
+        }
+        let src: Expr = match cur {
             Expr::MethodCall(it) if it.method == "iter" && it.args.is_empty() => (*it.receiver).clone(),
             Expr::Reference(r) if r.mutability.is_none() => (*r.expr).clone(),
             e if is_place(e) => e.clone(),
@@ -1377,6 +1405,36 @@ impl<'a> Body<'a> {
         let end = ident(&format!("__end{k}"));
         let ivar = ident(&format!("__i{k}"));
         let body = &fl.body.stmts;
+        if adapters > 0 {
+            if has_continue(&fl.body) {
+                return None;
+            }
+            let lo = ident(&format!("__lo{k}"));
+            let bind: TokenStream = match &*fl.pat {
+                Pat::Reference(pr) => {
+                    let inner = &pr.pat;
+                    quote!(let #inner = #src[#ivar];)
+                }
+                other => quote!(let #other = &#src[#ivar];),
+            };
+            let label = &fl.label;
+            let lo_e: TokenStream = match &skip {
+                Some(a) => quote!({ let __n = #src.len(); let __a: usize = #a; if __n < __a { __n } else { __a } }),
+                None => quote!(0),
+            };
+            let hi_e: TokenStream = match (&take, skip_first) {
+                (None, _) => quote!(#src.len()),
+                // skip(A).take(N): N elements from A on;  take(N).skip(A): the first N elements, from A on
+                (Some(n), true) if skip.is_some() => quote!({ let __n = #src.len(); let __t: usize = #n; if __n - #lo < __t { __n } else { #lo + __t } }),
+                (Some(n), _) => quote!({ let __n = #src.len(); let __t: usize = #n; if __n < __t { __n } else { __t } }),
+            };
+            self.note("R4", format!("for {} in {} -> index loop over the adapted range", fl.pat.to_token_stream(), fl.expr.to_token_stream()));
+            return Some(parse_stmts(quote!(
+                let #lo = #lo_e;
+                let #end = { let __h = #hi_e; if __h < #lo { #lo } else { __h } };
+                #label for #ivar in #lo..#end { #bind #(#body)* }
+            )));
+        }
         let bind: TokenStream = match &*fl.pat {
             Pat::Reference(pr) => {
                 let inner = &pr.pat;
